@@ -121,6 +121,7 @@ type c02Dev struct {
 	Boundary int
 	Action   string
 	Target   string
+	Before   string // the environment acts just before the n-th request with this identity
 }
 
 func (x *c02World) act(action string, k *sim.Kind, name string, locked bool) {
@@ -163,7 +164,11 @@ func TestVerifC02(t *testing.T) {
 	idx := 0
 	run := func(dev c02Dev, plan func(x *c02World, n *int) func(q *sim.Request) *sim.Fault, pre func(x *c02World)) {
 		idx++
-		if !mc.Mine(idx) {
+		if dev.Before != "" {
+			if !mc.MineKey(fmt.Sprintf("%+v", dev)) {
+				return
+			}
+		} else if !mc.Mine(idx) {
 			return
 		}
 		r.Case(dev, fmt.Sprint(idx), func() []mc.Finding {
@@ -231,5 +236,34 @@ func TestVerifC02(t *testing.T) {
 			}
 		}
 	}
-	r.Infof("decorator: %d requests in the base sync, %d boundaries x 5 actions x %d targets", nreq, nreq+1, len(targets))
+	// ... and every action on the target of a request just before that very request, by request identity
+	seenBase := map[string]int{}
+	byID := map[string]*sim.Request{}
+	for _, q := range base.Sim.Log {
+		seenBase[q.Ident()]++
+		byID[fmt.Sprintf("%s#%d", q.Ident(), seenBase[q.Ident()])] = q
+	}
+	for _, id := range mc.SortedKeys(byID) {
+		q := byID[id]
+		for _, tg := range targets {
+			if tg.k != q.Kind || tg.name != q.Name || q.NS != "n1" {
+				continue
+			}
+			for _, action := range []string{"delete", "recreate", "foreign-owner", "clear-owners", "other-marker"} {
+				ident, act, tgt := id, action, tg
+				run(c02Dev{Boundary: -2, Action: act, Target: tgt.k.Resource + "/" + tgt.name, Before: ident}, func(x *c02World, n *int) func(q *sim.Request) *sim.Fault {
+					seen := map[string]int{}
+					return func(q *sim.Request) *sim.Fault {
+						seen[q.Ident()]++
+						if fmt.Sprintf("%s#%d", q.Ident(), seen[q.Ident()]) == ident {
+							x.act(act, tgt.k, tgt.name, true)
+							q.Pre = x.Sim.GetLocked(tgt.k, "n1", tgt.name)
+						}
+						return nil
+					}
+				}, nil)
+			}
+		}
+	}
+	r.Infof("decorator: %d requests in the base sync, %d boundaries x 5 actions x %d targets, plus request identity x action on its target", nreq, nreq+1, len(targets))
 }
